@@ -546,8 +546,8 @@ func Main(run *hx.Run) {
 	do("selftest-private", 2, run.Seed, 2, 2)
 	// every workload under several GOMAXPROCS values and seeds
 	rounds := run.Scale(2)
-	if run.Thorough() {
-		rounds = run.Scale(4)
+	if run.Thorough() && rounds > 16 {
+		rounds = 16 // 16 rounds x 17 workloads with up to 6 goroutines x 9 iterations: about 4 minutes
 	}
 	for round := 0; round < rounds; round++ {
 		for _, w := range Workloads {
